@@ -123,6 +123,7 @@ Definition req (e2e : bool) (st : port_state) : list nat :=
   | PMaster => [0; 1]%nat
   | PSlave _ => if e2e then [2%nat] else []
   | PListening => [3%nat]
+  | PFaulty => [3%nat]       (* unless the fault began without a receipt timer *)
   | _ => []
   end.
 Definition e2e_of (pp : port) : bool := match pc_delay (p_config pp) with E2E _ => true | P2P _ => false end.
@@ -130,7 +131,8 @@ Definition has_reset (k : nat) (oo : list obs) : Prop := exists x, In x oo /\ re
 
 Definition oblig (e2e : bool) (pp pp' : port) (oo : list obs) (fk : option nat) : Prop :=
   forall k, In k (req e2e (p_state pp')) ->
-    has_reset k oo \/ (In k (req e2e (p_state pp)) /\ fk <> Some k) \/ (k = 3%nat /\ is_faulty (p_state pp) = true).
+    has_reset k oo \/ (In k (req e2e (p_state pp)) /\ fk <> Some k) \/
+    (p_state pp' = PFaulty /\ is_faulty (p_state pp) = false).
 
 (** state changes that need no timer *)
 Definition soft (pp pp' : port) : Prop :=
@@ -142,8 +144,10 @@ Proof.
   intros Hs k Hk. destruct Hs as [H|[[H1 H2]|[[H1 H2]|[H|H]]]].
   - right. left. rewrite <- H. split; [exact Hk|discriminate].
   - right. left. destruct (p_state pp); try discriminate H1. destruct (p_state pp'); try discriminate H2. split; [exact Hk|discriminate].
-  - rewrite H2 in Hk. destruct Hk as [<-|[]]. right. right. split; [reflexivity|exact H1].
-  - rewrite H in Hk. destruct Hk.
+  - rewrite H2 in Hk. destruct Hk as [<-|[]]. right. left. destruct (p_state pp); try discriminate H1. split; [left; reflexivity|discriminate].
+  - rewrite H in Hk. destruct Hk as [<-|[]]. destruct (is_faulty (p_state pp)) eqn:Ef.
+    + right. left. destruct (p_state pp); try discriminate Ef. split; [left; reflexivity|discriminate].
+    + right. right. split; [exact H|reflexivity].
   - rewrite H in Hk. destruct Hk.
 Qed.
 
@@ -264,59 +268,67 @@ Qed.
 Lemma in_reset (x : obs) k oo : In x oo -> reset_kind x = Some k -> has_reset k oo.
 Proof. intros H1 H2. exists x. split; assumption. Qed.
 
+Lemma oblig_same e2e pp pp' oo fk :
+  req e2e (p_state pp') = req e2e (p_state pp) ->
+  (forall k, fk = Some k -> In k (req e2e (p_state pp)) -> has_reset k oo) -> oblig e2e pp pp' oo fk.
+Proof.
+  intros Hr Hf k Hk. rewrite Hr in Hk.
+  assert (Hd : fk = Some k \/ fk <> Some k).
+  { destruct fk as [k0|]; [|right; discriminate]. destruct (Nat.eq_dec k0 k) as [->|Hne]; [left; reflexivity|right; intros Hx; inversion Hx; contradiction]. }
+  destruct Hd as [He|Hne]; [left; apply Hf; assumption|right; left; split; assumption].
+Qed.
+
+Lemma req_master e2e st k : In k (req e2e st) -> (k = 0 \/ k = 1)%nat -> st = PMaster.
+Proof.
+  destruct st; cbn [req]; try (intros []; fail); try reflexivity; intros H Hk.
+  - destruct H as [<-|[]]. destruct Hk; discriminate.
+  - destruct H as [<-|[]]. destruct Hk; discriminate.
+  - destruct e2e; [destruct H as [<-|[]]; destruct Hk; discriminate|destruct H].
+Qed.
+
 Lemma announce_timer_oblig e2e p d q p' d' o : send_announce p d q = Ok (p', d', o) -> oblig e2e p p' o (Some 0%nat).
 Proof.
-  intros H k Hk. destruct (is_master (p_state p)) eqn:Em.
-  - destruct (announce_timer_rearms _ _ _ _ _ _ H Em) as [Hin Hst]. rewrite Hst in Hk. cbn [req] in Hk.
-    destruct Hk as [<-|[<-|[]]].
-    + left. eapply in_reset; [exact Hin|reflexivity].
-    + right. left. destruct (p_state p); try discriminate Em. split; [cbn; auto|discriminate].
-  - unfold send_announce in H. rewrite Em in H. unfold ret in H. inversion H; subst. right. left. split; [exact Hk|].
-    destruct (p_state p'); cbn [req] in Hk; try destruct Hk as [<-|[]]; try discriminate Em; try discriminate;
-      destruct e2e; cbn in Hk; try destruct Hk as [<-|[]]; try contradiction; discriminate.
+  intros H. destruct (is_master (p_state p)) eqn:Em.
+  - destruct (announce_timer_rearms _ _ _ _ _ _ H Em) as [Hin Hst]. apply oblig_same.
+    + rewrite Hst. destruct (p_state p); try discriminate Em. reflexivity.
+    + intros k Hk _. inversion Hk; subst. eapply in_reset; [exact Hin|reflexivity].
+  - unfold send_announce in H. rewrite Em in H. unfold ret in H. inversion H; subst. apply oblig_same; [reflexivity|].
+    intros k Hk Hin. inversion Hk; subst. rewrite (req_master _ _ _ Hin (or_introl eq_refl)) in Em. discriminate Em.
 Qed.
 
 Lemma sync_timer_oblig e2e p d p' d' o : send_sync p d = Ok (p', d', o) -> oblig e2e p p' o (Some 1%nat).
 Proof.
-  intros H k Hk. destruct (is_master (p_state p)) eqn:Em.
-  - destruct (sync_timer_rearms _ _ _ _ _ H Em) as [Hin Hst]. rewrite Hst in Hk. cbn [req] in Hk.
-    destruct Hk as [<-|[<-|[]]].
-    + right. left. destruct (p_state p); try discriminate Em. split; [cbn; auto|discriminate].
-    + left. eapply in_reset; [exact Hin|reflexivity].
-  - unfold send_sync in H. rewrite Em in H. unfold ret in H. inversion H; subst. right. left. split; [exact Hk|].
-    destruct (p_state p'); cbn [req] in Hk; try destruct Hk as [<-|[]]; try discriminate Em; try discriminate;
-      destruct e2e; cbn in Hk; try destruct Hk as [<-|[]]; try contradiction; discriminate.
+  intros H. destruct (is_master (p_state p)) eqn:Em.
+  - destruct (sync_timer_rearms _ _ _ _ _ H Em) as [Hin Hst]. apply oblig_same.
+    + rewrite Hst. destruct (p_state p); try discriminate Em. reflexivity.
+    + intros k Hk _. inversion Hk; subst. eapply in_reset; [exact Hin|reflexivity].
+  - unfold send_sync in H. rewrite Em in H. unfold ret in H. inversion H; subst. apply oblig_same; [reflexivity|].
+    intros k Hk Hin. inversion Hk; subst. rewrite (req_master _ _ _ Hin (or_intror eq_refl)) in Em. discriminate Em.
 Qed.
 
 Lemma delay_timer_oblig p d p' d' o : send_delay_request p d = Ok (p', d', o) -> oblig (e2e_of p) p p' o (Some 2%nat).
 Proof.
-  intros H k Hk. unfold e2e_of in *.
+  intros H.
   assert (Hst : p_state p' = p_state p \/ exists st st', p_state p = PSlave st /\ p_state p' = PSlave st').
   { unfold send_delay_request in H. crunch H;
       repeat match goal with E : draw _ = (_, _) |- _ => apply draw_state_eq in E end;
       repeat match goal with E : p_state _ = p_state _ |- _ => rewrite E end;
       cbn [set_slave port_with_state port_with_peer port_with_seqs p_state]; auto.
     right. eexists; eexists. split; [first [eassumption|reflexivity]|reflexivity]. }
-  destruct (pc_delay (p_config p)) as [log|log] eqn:Ed.
-  - destruct Hst as [Hs|(st & st' & Hs & Hs')].
-    + rewrite Hs in Hk. destruct (p_state p) as [| | | |st] eqn:Est; cbn [req] in Hk.
-      * destruct Hk.
-      * right. left. split; [exact Hk|]. destruct Hk as [<-|[]]. discriminate.
-      * right. left. split; [exact Hk|]. destruct Hk as [<-|[<-|[]]]; discriminate.
-      * destruct Hk.
-      * destruct Hk as [<-|[]]. left. destruct (delay_req_timer_rearms _ _ _ _ _ _ _ Ed Est H) as (ns & Hin). eapply in_reset; [exact Hin|reflexivity].
-    + rewrite Hs' in Hk. cbn [req] in Hk. destruct Hk as [<-|[]].
-      left. destruct (delay_req_timer_rearms _ _ _ _ _ _ _ Ed Hs H) as (ns & Hin). eapply in_reset; [exact Hin|reflexivity].
-  - right. left. destruct Hst as [Hs|(st & st' & Hs & Hs')].
-    + rewrite Hs in Hk. split; [exact Hk|]. destruct (p_state p); cbn [req] in Hk; try destruct Hk as [<-|Hk]; try discriminate; try destruct Hk as [<-|[]]; try discriminate; destruct Hk.
-    + rewrite Hs' in Hk. destruct Hk.
+  apply oblig_same.
+  - destruct Hst as [->|(st & st' & -> & ->)]; reflexivity.
+  - intros k Hk Hin. inversion Hk; subst k. unfold e2e_of in Hin.
+    destruct (p_state p) as [| | | |st] eqn:Est; cbn [req] in Hin;
+      try (destruct Hin as [Hx|[Hx|[]]]; discriminate Hx); try (destruct Hin as [Hx|[]]; discriminate Hx); try (destruct Hin; fail).
+    destruct (pc_delay (p_config p)) as [log|log] eqn:Ed; [|destruct Hin].
+    destruct (delay_req_timer_rearms _ _ _ _ _ _ _ Ed Est H) as (ns & Hi). eapply in_reset; [exact Hi|reflexivity].
 Qed.
 
 Lemma receipt_timer_oblig e2e p d p' d' o : handle_announce_receipt_timer p d = Ok (p', d', o) -> oblig e2e p p' o (Some 3%nat).
 Proof.
   intros H k Hk. destruct (receipt_timeout_arms p d) as (p1 & o1 & H1 & Hf & Hm & Hl). rewrite H in H1. inversion H1; subst p1 d' o1.
   destruct (is_faulty (p_state p)) eqn:Ef.
-  - destruct (Hf eq_refl) as [Hs _]. rewrite Hs in Hk. destruct Hk.
+  - destruct (Hf eq_refl) as [Hs (ns & Hin)]. rewrite Hs in Hk. destruct Hk as [<-|[]]. left. eapply in_reset; [exact Hin|reflexivity].
   - destruct (dd_slave_only (ds_default d)) eqn:Eso.
     + destruct (Hl eq_refl eq_refl) as [Hs (ns & Hin)]. rewrite Hs in Hk. destruct Hk as [<-|[]]. left. eapply in_reset; [exact Hin|reflexivity].
     + destruct (Hm eq_refl eq_refl) as (Hs & Hin0 & Hin1). rewrite Hs in Hk. destruct Hk as [<-|[<-|[]]]; left; [eapply in_reset; [exact Hin0|reflexivity]|eapply in_reset; [exact Hin1|reflexivity]].
@@ -324,9 +336,10 @@ Qed.
 
 Lemma filter_timer_oblig e2e p d p' d' o : handle_filter_update_timer p d = Ok (p', d', o) -> oblig e2e p p' o (Some 4%nat).
 Proof.
-  intros H k Hk. unfold handle_filter_update_timer, ret in H. inversion H; subst. right. left. split; [exact Hk|].
-  destruct (p_state p'); cbn [req] in Hk; try destruct Hk as [<-|Hk]; try discriminate; try destruct Hk as [<-|[]]; try discriminate;
-    destruct e2e; cbn in Hk; try destruct Hk as [<-|[]]; try contradiction; discriminate.
+  intros H. unfold handle_filter_update_timer, ret in H. inversion H; subst. apply oblig_same; [reflexivity|].
+  intros k Hk Hin. inversion Hk; subst k. exfalso.
+  destruct (p_state p'); cbn [req] in Hin; try (destruct Hin as [Hx|[Hx|[]]]; discriminate Hx); try (destruct Hin as [Hx|[]]; discriminate Hx); try (destruct Hin; fail).
+  destruct e2e; [destruct Hin as [Hx|[]]; discriminate Hx|destruct Hin].
 Qed.
 
 (** * BMCA transitions request the timers of the new state *)
@@ -449,16 +462,13 @@ Proof.
 Qed.
 
 (** * every call, port by port *)
-Lemma req3_listening e2e st : In 3%nat (req e2e st) -> st = PListening.
-Proof. destruct st; cbn [req]; try (intros []; fail); try reflexivity; intros H; [destruct H as [H|[H|[]]]; discriminate H|destruct e2e; [destruct H as [H|[]]; discriminate H|destruct H]]. Qed.
-
 Lemma step_oblig c i e i' o p pp :
   reach_inv c i -> event_valid e -> step i e = Ok (i', o) -> nth_error (i_ports i) p = Some pp ->
   exists pp', nth_error (i_ports i') p = Some pp' /\ p_config pp' = p_config pp /\
     forall k, In k (req (e2e_of pp) (p_state pp')) ->
       (exists x, In x o /\ Z.to_nat (fst x) = p /\ reset_kind (snd x) = Some k) \/
       (In k (req (e2e_of pp) (p_state pp)) /\ timer_event e <> Some (p, k)) \/
-      (k = 3%nat /\ is_faulty (p_state pp) = true /\ p_state pp' = PListening).
+      (p_state pp' = PFaulty /\ is_faulty (p_state pp) = false).
 Proof.
   intros Hr He Hs Hn.
   assert (Hlt : (p < length (i_ports i))%nat) by (apply nth_error_Some; rewrite Hn; discriminate).
@@ -470,23 +480,23 @@ Proof.
               forall k, In k (req (e2e_of pp) (p_state pp')) ->
                 (exists x, In x o /\ Z.to_nat (fst x) = p /\ reset_kind (snd x) = Some k) \/
                 (In k (req (e2e_of pp) (p_state pp)) /\ timer_event e <> Some (p, k)) \/
-                (k = 3%nat /\ is_faulty (p_state pp) = true /\ p_state pp' = PListening)).
+                (p_state pp' = PFaulty /\ is_faulty (p_state pp) = false)).
   { intros f fk Hop Hob Hfk. destruct (on_port_full i p f i' o Hop) as [(Hnn & _)|(pp0 & pp0' & d' & oo & Hn0 & Hh & Hi')]; [rewrite Hn in Hnn; discriminate|].
     rewrite Hn in Hn0. inversion Hn0; subst pp0.
     assert (Hn' : nth_error (i_ports i') p = Some pp0') by (subst i'; cbn [i_ports]; apply nth_error_update_same; exact Hlt).
     exists pp0'. split; [exact Hn'|]. split; [eapply step_cfg; eauto; apply (ri_inv _ _ Hr)|].
-    intros k Hk. destruct (Hob _ _ _ Hh k Hk) as [(x & Hx & Hrk)|[[Hc Hf]|[Hk3 Hfa]]].
+    intros k Hk. destruct (Hob _ _ _ Hh k Hk) as [(x & Hx & Hrk)|[[Hc Hf]|Hent]].
     - left. exists (Z.of_nat p, x). split; [|split; [cbn; lia|exact Hrk]].
       unfold on_port in Hop. rewrite Hn, Hh in Hop. cbn [obind] in Hop. inversion Hop; subst. apply tag_in; [exact Hx|rewrite Hrk; discriminate].
     - right. left. split; [exact Hc|apply Hfk; exact Hf].
-    - right. right. split; [exact Hk3|]. split; [exact Hfa|]. subst k. eapply req3_listening; exact Hk. }
+    - right. right. exact Hent. }
   (* a port the call leaves alone *)
   assert (Hidle : nth_error (i_ports i') p = Some pp -> (forall k, timer_event e <> Some (p, k)) ->
             exists pp', nth_error (i_ports i') p = Some pp' /\ p_config pp' = p_config pp /\
               forall k, In k (req (e2e_of pp) (p_state pp')) ->
                 (exists x, In x o /\ Z.to_nat (fst x) = p /\ reset_kind (snd x) = Some k) \/
                 (In k (req (e2e_of pp) (p_state pp)) /\ timer_event e <> Some (p, k)) \/
-                (k = 3%nat /\ is_faulty (p_state pp) = true /\ p_state pp' = PListening)).
+                (p_state pp' = PFaulty /\ is_faulty (p_state pp) = false)).
   { intros Hn' Hte. exists pp. split; [exact Hn'|]. split; [reflexivity|]. intros k Hk. right. left. split; [exact Hk|apply Hte]. }
   assert (Hother : forall n f, n <> p -> on_port i n f = Ok (i', o) -> nth_error (i_ports i') p = Some pp).
   { intros n f Hne Hop. destruct (on_port_full i n f i' o Hop) as [(_ & ->)|(pp0 & pp0' & d' & oo & _ & _ & ->)]; [exact Hn|].
@@ -518,11 +528,14 @@ Proof.
 Qed.
 
 (** * the invariant of the walk *)
-Definition Inv12 (c : pcase) (i : instance) (tm : list timers) (rc : list bool) : Prop :=
+Definition exc12 (st : port_state) (r u : bool) : Prop :=
+  (st = PListening /\ r = true) \/ (st = PFaulty /\ u = true).
+
+Definition Inv12 (c : pcase) (i : instance) (tm : list timers) (rc ua : list bool) : Prop :=
   book_wf tm /\ length tm = nports c /\
   forall p pp, nth_error (i_ports i) p = Some pp ->
     forall k, In k (req (e2e_of pp) (p_state pp)) ->
-      armedT (nth p tm no_timers) k = true \/ (k = 3%nat /\ nth p rc false = true).
+      armedT (nth p tm no_timers) k = true \/ (k = 3%nat /\ exc12 (p_state pp) (nth p rc false) (nth p ua false)).
 
 Lemma clear_wf tm q kf : book_wf tm -> book_wf (update_nth q (set_timer (nth q tm no_timers) kf None) tm).
 Proof. intros H. apply Forall_update_nth; [exact H|]. rewrite set_timer_len. apply nth_no_timers_len. exact H. Qed.
@@ -544,11 +557,8 @@ Proof.
   rewrite (map_nth f (seq 0 n) 0%nat p), seq_nth by exact H. reflexivity.
 Qed.
 
-Lemma code_listening' s : (port_state_code s =? 4) = is_listening s.
-Proof. destruct s; reflexivity. Qed.
-
-Lemma inv12_sane c i tm rc s sn :
-  reach_inv c i -> Inv12 c i tm rc -> tms s = tm -> recovered s = rc -> sn = snapshot_of i ->
+Lemma inv12_sane c i tm rc ua s sn :
+  reach_inv c i -> Inv12 c i tm rc ua -> tms s = tm -> recovered s = rc -> sn = snapshot_of i ->
   timers_sane_but_f22 c s sn = true.
 Proof.
   intros Hr (Hwf & Hlen & Hall) Ht Hrc ->. unfold timers_sane_but_f22. apply forallb_forall. intros p Hp.
@@ -558,29 +568,38 @@ Proof.
   assert (He : is_e2e c p = e2e_of pp) by (unfold is_e2e, e2e_of; rewrite (port_cfg_of c i p pp Hr Hn); reflexivity).
   specialize (Hall p pp Hn). fold (armedT (nth p tm no_timers) 0) (armedT (nth p tm no_timers) 1) (armedT (nth p tm no_timers) 2) (armedT (nth p tm no_timers) 3).
   destruct (p_state pp) as [| | | |st] eqn:Est; cbn [port_state_code Z.eqb Pos.eqb req] in *; try reflexivity.
-  - destruct (Hall 3%nat (or_introl eq_refl)) as [H|[_ H]]; rewrite H; [reflexivity|apply orb_true_r].
+  - destruct (Hall 3%nat (or_introl eq_refl)) as [H|[_ [[_ H]|[H _]]]]; [rewrite H; reflexivity|rewrite H; apply orb_true_r|discriminate H].
   - destruct (Hall 0%nat (or_introl eq_refl)) as [H0|[H0 _]]; [|discriminate H0].
     destruct (Hall 1%nat (or_intror (or_introl eq_refl))) as [H1|[H1 _]]; [|discriminate H1]. rewrite H0, H1. reflexivity.
   - rewrite He. destruct (e2e_of pp); [|reflexivity].
     destruct (Hall 2%nat (or_introl eq_refl)) as [H2|[H2 _]]; [exact H2|discriminate H2].
 Qed.
 
-Lemma step_inv12 c i e i' o tm rc now :
-  reach_inv c i -> event_valid e -> step i e = Ok (i', o) -> Inv12 c i tm rc -> length rc = nports c ->
+Definition rec_next (c : pcase) (prev sn : snapshot) (rc ua : list bool) : list bool :=
+  map (fun p => if state_of sn p =? 4
+                then (nth p rc false && (state_of prev p =? 4)) || ((state_of prev p =? 2) && nth p ua false)
+                else false) (all_ports c).
+Definition uaf_next (c : pcase) (prev sn : snapshot) (ua : list bool) (tms2 : list timers) : list bool :=
+  map (fun p => if state_of sn p =? 2
+                then (if state_of prev p =? 2 then nth p ua false
+                      else match nth 3 (nth p tms2 no_timers) None with Some _ => false | None => true end)
+                else false) (all_ports c).
+
+Lemma step_inv12 c i e i' o tm rc ua now :
+  reach_inv c i -> event_valid e -> step i e = Ok (i', o) -> Inv12 c i tm rc ua ->
   let tms1 := match timer_event e with
               | Some (p, k) => update_nth p (set_timer (nth p tm no_timers) k None) tm
               | None => tm
               end in
-  let rec' := map (fun p => nth p rc false || ((state_of (snapshot_of i) p =? 2) && (state_of (snapshot_of i') p =? 4))) (all_ports c) in
-  Inv12 c i' (apply_resets now tms1 o) rec' /\ length rec' = nports c.
+  let tms2 := apply_resets now tms1 o in
+  Inv12 c i' tms2 (rec_next c (snapshot_of i) (snapshot_of i') rc ua) (uaf_next c (snapshot_of i) (snapshot_of i') ua tms2).
 Proof.
-  intros Hr He Hs (Hwf & Hlen & Hall) Hrl. cbv zeta.
+  intros Hr He Hs (Hwf & Hlen & Hall). cbv zeta.
   pose proof (reach_step c i e i' o Hr He Hs) as Hr'.
   set (tms1 := match timer_event e with Some (p, k) => update_nth p (set_timer (nth p tm no_timers) k None) tm | None => tm end).
   assert (Hwf1 : book_wf tms1) by (unfold tms1; destruct (timer_event e) as [[q kf]|]; [apply clear_wf|]; exact Hwf).
   assert (Hlen1 : length tms1 = nports c) by (unfold tms1; destruct (timer_event e) as [[q kf]|]; [rewrite update_nth_length|]; exact Hlen).
   destruct (apply_resets_wf now o tms1 Hwf1) as [Hwf2 Hlen2].
-  split; [|unfold all_ports; rewrite map_length, seq_length; reflexivity].
   split; [exact Hwf2|]. split; [rewrite Hlen2; exact Hlen1|].
   intros p pp' Hn' k Hk.
   assert (Hp : (p < nports c)%nat) by (rewrite <- (ports_len c i' Hr'); apply nth_error_Some; rewrite Hn'; discriminate).
@@ -588,55 +607,141 @@ Proof.
   destruct (nth_error (i_ports i) p) as [pp|] eqn:Hn; [|apply nth_error_None in Hn; lia].
   destruct (step_oblig c i e i' o p pp Hr He Hs Hn) as (pp2 & Hn2 & Hcfg & Hob). rewrite Hn' in Hn2. inversion Hn2; subst pp2.
   assert (He2e : e2e_of pp' = e2e_of pp) by (unfold e2e_of; rewrite Hcfg; reflexivity). rewrite He2e in Hk.
-  unfold all_ports. rewrite (nth_map_ports _ false (nports c) p Hp).
-  destruct (Hob k Hk) as [(x & Hx & Hxp & Hxk)|[[Hc Hte]|(Hk3 & Hfa & Hli)]].
+  unfold rec_next, uaf_next, all_ports. rewrite !(nth_map_ports _ false (nports c) p Hp).
+  rewrite (MainC09.state_of_snapshot i p pp Hn), (MainC09.state_of_snapshot i' p pp' Hn'), !code_faulty, !code_listening.
+  fold (armedT (nth p (apply_resets now tms1 o) no_timers) 3).
+  destruct (Hob k Hk) as [(x & Hx & Hxp & Hxk)|[[Hc Hte]|(Hfa' & Hfa)]].
   - left. eapply apply_resets_sets; eauto. rewrite Hlen1. exact Hp.
-  - destruct (Hall p pp Hn k Hc) as [Ha|[Hk3 Hrec]].
+  - destruct (Hall p pp Hn k Hc) as [Ha|[Hk3 Hex]].
     + left. apply apply_resets_mono; [exact Hwf1|]. unfold tms1. destruct (timer_event e) as [[q kf]|]; [|exact Ha].
       rewrite clear_armed; [exact Ha|]. intros Hx. inversion Hx; subst. apply Hte. reflexivity.
-    + right. split; [exact Hk3|]. rewrite Hrec. reflexivity.
-  - right. split; [exact Hk3|].
-    rewrite (MainC09.state_of_snapshot i p pp Hn), (MainC09.state_of_snapshot i' p pp' Hn'), code_faulty, Hfa, Hli. apply orb_true_r.
+    + subst k.
+      assert (Hst' : p_state pp' = PListening \/ p_state pp' = PFaulty).
+      { destruct (p_state pp'); cbn [req] in Hk; auto; try (destruct Hk as [Hx|[Hx|[]]]; discriminate Hx); try (destruct Hk; fail).
+        destruct (e2e_of pp); [destruct Hk as [Hx|[]]; discriminate Hx|destruct Hk]. }
+      destruct (armedT (nth p (apply_resets now tms1 o) no_timers) 3) eqn:Earm; [left; reflexivity|].
+      right. split; [reflexivity|]. unfold exc12.
+      assert (Hnone : match nth 3 (nth p (apply_resets now tms1 o) no_timers) None with Some _ => false | None => true end = true).
+      { unfold armedT in Earm. destruct (nth 3 (nth p (apply_resets now tms1 o) no_timers) None); [discriminate Earm|reflexivity]. }
+      destruct Hex as [[Hl Hrc]|[Hf Hua]]; destruct Hst' as [Hs'|Hs']; rewrite Hs'; cbn [is_listening is_faulty].
+      * left. split; [reflexivity|]. rewrite Hl, Hrc. reflexivity.
+      * right. split; [reflexivity|]. rewrite Hl. cbn [is_faulty]. exact Hnone.
+      * left. split; [reflexivity|]. rewrite Hf, Hua. cbn [is_listening is_faulty andb orb]. apply orb_true_r.
+      * right. split; [reflexivity|]. rewrite Hf, Hua. reflexivity.
+  - (* entering the faulty state *)
+    rewrite Hfa' in Hk. destruct Hk as [<-|[]].
+    destruct (armedT (nth p (apply_resets now tms1 o) no_timers) 3) eqn:Earm; [left; reflexivity|].
+    right. split; [reflexivity|]. right. rewrite Hfa', Hfa. cbn [is_faulty]. split; [reflexivity|].
+    unfold armedT in Earm. destruct (nth 3 (nth p (apply_resets now tms1 o) no_timers) None); [discriminate Earm|reflexivity].
+Qed.
+
+(** * a timer that fires in the state relying on it produces its message *)
+Lemma msg_type_eqb_refl t : msg_type_eqb t t = true.
+Proof. destruct t; reflexivity. Qed.
+
+Lemma emitted_one pp d oo t0 : frames_role pp d oo -> one_frame oo t0 ->
+  emitted_types (filter (fun x => negb (MainC08Role.is_lock x)) oo) t0 = 1%nat.
+Proof.
+  intros Hf (ev & m0 & Hs & Ht). unfold emitted_types, count. rewrite sent_frames_filter, Hs.
+  unfold frames_role in Hf. rewrite Hs in Hf. apply Forall_inv in Hf.
+  destruct Hf as (m & Hd & _ & _ & Henc & _). cbn [snd] in Hd, Henc. cbn [filter snd]. unfold decoded. rewrite Hd.
+  rewrite <- (encode_raw_type _ _ Henc), Ht, msg_type_eqb_refl. reflexivity.
+Qed.
+
+Lemma fires_ok_model c i e i' o :
+  reach_inv c i -> event_valid e -> step i e = Ok (i', o) ->
+  match e with
+  | EvAnnounceTimer p _ => if state_of (snapshot_of i) p =? 6 then (emitted_types (obs_of_port o p) MTAnnounce =? 1)%nat else true
+  | EvSyncTimer p => if state_of (snapshot_of i) p =? 6 then (emitted_types (obs_of_port o p) MTSync =? 1)%nat else true
+  | EvDelayReqTimer p =>
+      match port_cfg c p with
+      | Some pc => match pc_delay pc with
+                   | E2E _ => if state_of (snapshot_of i) p =? 9 then (emitted_types (obs_of_port o p) MTDelayReq =? 1)%nat else true
+                   | P2P _ => (emitted_types (obs_of_port o p) MTPDelayReq =? 1)%nat
+                   end
+      | None => true
+      end
+  | _ => true
+  end = true.
+Proof.
+  intros Hr He Hs.
+  assert (Hpd : forall n pp, nth_error (i_ports i) n = Some pp -> port_inv pp /\ ds_inv (i_ds i)).
+  { intros n pp Hn. destruct (ri_inv _ _ Hr) as (Hports & Hds & _). split; [|exact Hds]. rewrite Forall_forall in Hports. apply Hports. eapply nth_error_In; eauto. }
+  destruct e; try reflexivity; cbn [step event_valid] in *.
+  - destruct (nth_error (i_ports i) p) as [pp|] eqn:Hn; [|rewrite (state_of_none i p Hn); reflexivity].
+    rewrite (MainC09.state_of_snapshot i p pp Hn), code_master'. destruct (is_master (p_state pp)) eqn:Em; [|reflexivity].
+    destruct (on_port_full i p _ i' o Hs) as [(Hx & _)|(pp0 & pp0' & d' & oo & Hn0 & Hh & _)]; [rewrite Hn in Hx; discriminate|].
+    rewrite Hn in Hn0. inversion Hn0; subst pp0. destruct (Hpd p pp Hn) as [Hp Hd].
+    unfold on_port in Hs. rewrite Hn, Hh in Hs. cbn [obind] in Hs. inversion Hs; subst. rewrite obs_of_port_tag_same.
+    pose proof (send_announce_one _ _ _ _ _ _ Hh) as Ho. rewrite Em in Ho.
+    rewrite (emitted_one pp (i_ds i) oo MTAnnounce (send_announce_role _ _ _ _ _ _ Hp Hd He Hh) Ho). reflexivity.
+  - destruct (nth_error (i_ports i) p) as [pp|] eqn:Hn; [|rewrite (state_of_none i p Hn); reflexivity].
+    rewrite (MainC09.state_of_snapshot i p pp Hn), code_master'. destruct (is_master (p_state pp)) eqn:Em; [|reflexivity].
+    destruct (on_port_full i p _ i' o Hs) as [(Hx & _)|(pp0 & pp0' & d' & oo & Hn0 & Hh & _)]; [rewrite Hn in Hx; discriminate|].
+    rewrite Hn in Hn0. inversion Hn0; subst pp0. destruct (Hpd p pp Hn) as [Hp Hd].
+    unfold on_port in Hs. rewrite Hn, Hh in Hs. cbn [obind] in Hs. inversion Hs; subst. rewrite obs_of_port_tag_same.
+    pose proof (send_sync_one _ _ _ _ _ Hh) as Ho. rewrite Em in Ho.
+    rewrite (emitted_one pp (i_ds i) oo MTSync (send_sync_role _ _ _ _ _ Hp Hd Hh) Ho). reflexivity.
+  - destruct (nth_error (i_ports i) p) as [pp|] eqn:Hn.
+    + rewrite (port_cfg_of c i p pp Hr Hn).
+      destruct (on_port_full i p _ i' o Hs) as [(Hx & _)|(pp0 & pp0' & d' & oo & Hn0 & Hh & _)]; [rewrite Hn in Hx; discriminate|].
+      rewrite Hn in Hn0. inversion Hn0; subst pp0. destruct (Hpd p pp Hn) as [Hp Hd].
+      unfold on_port in Hs. rewrite Hn, Hh in Hs. cbn [obind] in Hs. inversion Hs; subst. rewrite obs_of_port_tag_same.
+      pose proof (send_delay_request_one _ _ _ _ _ Hh) as Ho. pose proof (send_delay_request_role _ _ _ _ _ Hp Hd Hh) as Hfr.
+      rewrite (MainC09.state_of_snapshot i p pp Hn), code_slave.
+      destruct (pc_delay (p_config pp)).
+      * destruct (is_slave (p_state pp)); [|reflexivity]. rewrite (emitted_one pp (i_ds i) oo MTDelayReq Hfr Ho). reflexivity.
+      * rewrite (emitted_one pp (i_ds i) oo MTPDelayReq Hfr Ho). reflexivity.
+    + assert (Hnone : port_cfg c p = None).
+      { unfold port_cfg. destruct (nth_error (su_ports (pc_setup c)) p) as [[pc r]|] eqn:E; [|reflexivity].
+        exfalso. apply nth_error_None in Hn. assert (Hx : nth_error (su_ports (pc_setup c)) p <> None) by (rewrite E; discriminate).
+        apply nth_error_Some in Hx. pose proof (ports_len c i Hr) as Hl. unfold nports in Hl. lia. }
+      rewrite Hnone. reflexivity.
 Qed.
 
 (** * the walk *)
 Lemma step_C12_model c i e i' o s :
   reach_inv c i -> event_valid e -> step i e = Ok (i', o) ->
-  Inv12 c i (tms s) (recovered s) -> length (recovered s) = nports c ->
+  Inv12 c i (tms s) (recovered s) (uaf s) ->
   exists s', step_C12 c s (snapshot_of i) e o (snapshot_of i') = Some s' /\
-    Inv12 c i' (tms s') (recovered s') /\ length (recovered s') = nports c.
+    Inv12 c i' (tms s') (recovered s') (uaf s').
 Proof.
-  intros Hr He Hs Hinv Hrl. pose proof (reach_step c i e i' o Hr He Hs) as Hr'.
+  intros Hr He Hs Hinv. pose proof (reach_step c i e i' o Hr He Hs) as Hr'.
   assert (Htick : forall ns, e = EvTick ns -> exists s', step_C12 c s (snapshot_of i) e o (snapshot_of i') = Some s' /\
-            Inv12 c i' (tms s') (recovered s') /\ length (recovered s') = nports c).
-  { intros ns ->. cbn [step] in Hs. inversion Hs; subst. eexists. split; [reflexivity|]. cbn [tms recovered]. split; assumption. }
-  destruct (step_inv12 c i e i' o (tms s) (recovered s) (now12 s) Hr He Hs Hinv Hrl) as [Hinv' Hrl'].
+            Inv12 c i' (tms s') (recovered s') (uaf s')).
+  { intros ns ->. cbn [step] in Hs. inversion Hs; subst. eexists. split; [reflexivity|]. cbn [tms recovered uaf]. exact Hinv. }
+  pose proof (step_inv12 c i e i' o (tms s) (recovered s) (uaf s) (now12 s) Hr He Hs Hinv) as Hinv'. cbv zeta in Hinv'.
+  unfold rec_next, uaf_next in Hinv'.
+  pose proof (fires_ok_model c i e i' o Hr He Hs) as Hfires.
   assert (Hmain : forall sfin, tms sfin = apply_resets (now12 s) (match timer_event e with
                                    | Some (p, k) => update_nth p (set_timer (nth p (tms s) no_timers) k None) (tms s)
                                    | None => tms s end) o ->
-             recovered sfin = map (fun p => nth p (recovered s) false || ((state_of (snapshot_of i) p =? 2) && (state_of (snapshot_of i') p =? 4))) (all_ports c) ->
+             recovered sfin = map (fun p => if state_of (snapshot_of i') p =? 4
+                                            then (nth p (recovered s) false && (state_of (snapshot_of i) p =? 4))
+                                                 || ((state_of (snapshot_of i) p =? 2) && nth p (uaf s) false)
+                                            else false) (all_ports c) ->
              timers_sane_but_f22 c sfin (snapshot_of i') = true).
   { intros sfin Ht Hrc. eapply (inv12_sane c i'); [exact Hr'| |reflexivity|reflexivity|reflexivity]. rewrite Ht, Hrc. exact Hinv'. }
-  destruct e; try (eapply Htick; reflexivity); cbn [step_C12];
-    cbv zeta;
+  destruct e; try (eapply Htick; reflexivity); cbn [step_C12]; cbv zeta;
+    try rewrite Hfires; cbn [negb];
     match goal with |- exists s', (if negb ?ob then _ else _) = _ /\ _ => destruct (negb ob) end;
-    try (eexists; split; [reflexivity|]; cbn [tms recovered]; split; [exact Hinv'|exact Hrl']);
+    try (eexists; split; [reflexivity|]; cbn [tms recovered uaf]; exact Hinv');
     match goal with |- exists s', (if ?sane then _ else _) = _ /\ _ => destruct sane end;
-    try (eexists; split; [reflexivity|]; cbn [tms recovered]; split; [exact Hinv'|exact Hrl']);
+    try (eexists; split; [reflexivity|]; cbn [tms recovered uaf]; exact Hinv');
     match goal with |- exists s', (if ?sb then _ else _) = _ /\ _ =>
       assert (Hsb : sb = true) by (apply Hmain; reflexivity); rewrite Hsb end;
-    eexists; (split; [reflexivity|]); cbn [tms recovered]; (split; [exact Hinv'|exact Hrl']).
+    eexists; (split; [reflexivity|]); cbn [tms recovered uaf]; exact Hinv'.
 Qed.
 
 Lemma walk12_model c es : forall i s,
-  reach_inv c i -> Inv12 c i (tms s) (recovered s) -> length (recovered s) = nports c -> Forall event_valid es ->
+  reach_inv c i -> Inv12 c i (tms s) (recovered s) (uaf s) -> Forall event_valid es ->
   exists r, walk12 c s (snapshot_of i) es (run i es) = Some r.
 Proof.
-  induction es as [|e es IH]; intros i s Hr Hinv Hrl Hes; cbn [run walk12]; [eexists; reflexivity|].
+  induction es as [|e es IH]; intros i s Hr Hinv Hes; cbn [run walk12]; [eexists; reflexivity|].
   inversion Hes as [|? ? He Hes']; subst.
   destruct (step_ok i e (ri_inv _ _ Hr) He) as (i1 & o1 & Hs & _). rewrite Hs. cbn [walk12].
-  destruct (step_C12_model c i e i1 o1 s Hr He Hs Hinv Hrl) as (s' & Hst & Hinv' & Hrl'). rewrite Hst.
-  apply IH; [eapply reach_step; eauto|exact Hinv'|exact Hrl'|exact Hes'].
+  destruct (step_C12_model c i e i1 o1 s Hr He Hs Hinv) as (s' & Hst & Hinv'). rewrite Hst.
+  apply IH; [eapply reach_step; eauto|exact Hinv'|exact Hes'].
 Qed.
 
 (** the initial timer book: every port listens with its receipt timer armed *)
@@ -673,8 +778,8 @@ Proof.
   cbn [pc_events pc_trace]. unfold init_snap. cbn [pc_setup]. rewrite Hi.
   set (c := mkCase s es rel (Some o) (run i es)).
   pose proof (reach_init s es rel (run i es) i o Hs Hi) as Hr. fold c in Hr.
-  apply walk12_model; [exact Hr| |unfold init12; cbn [recovered]; unfold all_ports; rewrite map_length, seq_length; reflexivity|exact Hes].
-  unfold init12. cbn [tms recovered pc_init].
+  apply walk12_model; [exact Hr| |exact Hes].
+  unfold init12. cbn [tms recovered uaf pc_init].
   assert (Hwf0 : book_wf (map (fun _ : nat => no_timers) (all_ports c))).
   { unfold book_wf. apply Forall_forall. intros x Hx. apply in_map_iff in Hx. destruct Hx as (y & <- & _). reflexivity. }
   destruct (apply_resets_wf 0 o _ Hwf0) as [Hwf Hlen]. rewrite map_length in Hlen. unfold all_ports in Hlen. rewrite seq_length in Hlen.
